@@ -163,13 +163,15 @@ fn opts(multi: bool) -> GenOpts {
 fn run_case(seed: u64, idx: u64) -> CaseOut {
     let mut rng = Rng::derive(seed, 18, idx);
     let multi = idx % 2 == 1;
-    let (cfg, ops) = gen_history(&mut rng, &opts(multi));
+    let (mut cfg, ops) = gen_history(&mut rng, &opts(multi));
+    // half of the MultiProgress worlds overwrite frames in place (a different sequence of terminal calls)
+    cfg.move_cursor = multi && rng.chance(1, 2);
     let replay = format!("{seed}:{idx}");
     let base = run_one(&cfg, &ops, FaultPlan::default());
     let mut co = CaseOut::held(fnv1a(format!("{cfg:?}{ops:?}").as_bytes()), base.calls >= 4);
     let w = |k: u64, later: bool| {
         J::obj()
-            .with("terminal", format!("{}x{} multi={}", cfg.width, cfg.height, cfg.multi))
+            .with("terminal", format!("{}x{} multi={} move_cursor={}", cfg.width, cfg.height, cfg.multi, cfg.move_cursor))
             .with("ops", J::Arr(ops.iter().map(|o| o.to_json()).collect()))
             .with("fail_call", k)
             .with("and_all_later", later)
@@ -193,7 +195,7 @@ fn run_case(seed: u64, idx: u64) -> CaseOut {
                 co.see("op_x_terminal_call_pairs_hit", fnv1a(format!("{op}:{call:?}").as_bytes()));
             }
             if let Some((rule, d, opname)) = r.bad {
-                co.verdict = viol(rule, vec![format!("in-{opname}"), if multi { "multi".into() } else { "single".into() }], format!("fail terminal call {k}{}: {d}", if later { " and all later ones" } else { "" }), w(k, later), replay.clone());
+                co.verdict = viol(rule, vec![format!("in-{opname}"), if cfg.move_cursor { "multi-move-cursor".into() } else if multi { "multi".into() } else { "single".into() }], format!("fail terminal call {k}{}: {d}", if later { " and all later ones" } else { "" }), w(k, later), replay.clone());
                 co.count("fault_points_enumerated", points);
                 return co;
             }
@@ -223,7 +225,7 @@ pub fn run(cfg: &RunCfg) -> PropResult {
     };
     PropResult {
         report,
-        rule: "each evaluation: one base history (3-14 generated operations plus the revealing suffix: ticks, position/length updates, texts with tabs, set_tab_width, println, suspend, finish*/abandon*, drop, and for MultiProgress worlds add/insert/remove/mp.println/mp.clear/mp.suspend) is run fault-free to count its n terminal calls and then re-run 2n times: for EVERY k in 1..=n once with only call k failing and once with call k and all later calls failing (exhaustive in k up to 400 calls); after each faulty run a probe battery (10 calls per bar, 3 on the MultiProgress, then drop) must not panic, io::Result-returning calls must have reported the error, getters must equal the fault-free model; non-trivial = the history makes at least 4 terminal calls".into(),
+        rule: "each evaluation: one base history (3-14 generated operations plus the revealing suffix: ticks, position/length updates, texts with tabs, set_tab_width, println, suspend, finish*/abandon*, drop, and for MultiProgress worlds add/insert/remove/mp.println/mp.clear/mp.suspend, half of them with set_move_cursor(true)) is run fault-free to count its n terminal calls and then re-run 2n times: for EVERY k in 1..=n once with only call k failing and once with call k and all later calls failing (exhaustive in k up to 400 calls); after each faulty run a probe battery (10 calls per bar, 3 on the MultiProgress, then drop) must not panic, io::Result-returning calls must have reported the error, getters must equal the fault-free model; non-trivial = the history makes at least 4 terminal calls".into(),
         exhaustive: false,
     }
 }
